@@ -792,8 +792,23 @@ instance : LawfulMonad M := LawfulMonad.mk' M
   (pure_bind := fun _ _ => rfl)
   (bind_assoc := bind_assoc_M)
 
-/-- the part of `connect` up to the greeting -/
-def connectCore (host : Bytes) (port : Nat) : M (Reply × Replies) := do
+/-- `connect` on a client that is still connected abandons the open connection first -/
+def connectAbandon : M Unit := do
+  let w0 ← getW
+  if w0.connected then
+    emit .ctlClose
+    modifyW fun w => { w with connected := false }
+
+/-- the world after abandoning a connection that is still open -/
+def abandonW (w : World) : World :=
+  if w.connected then { w with connected := false, trace := w.trace ++ [.ctlClose] } else w
+
+theorem connectAbandon_run (w : World) : connectAbandon w = (.ok (), abandonW w) := by
+  unfold connectAbandon abandonW
+  cases hc : w.connected <;> simp [bind_apply, getW, hc, emit, modifyW, pure_apply]
+
+/-- the TCP connect and the greeting -/
+def connectGreet (host : Bytes) (port : Nat) : M (Reply × Replies) := do
   modifyW fun w =>
     let g : Group := match w.script with
       | g :: _ => g
@@ -804,6 +819,11 @@ def connectCore (host : Bytes) (port : Nat) : M (Reply × Replies) := do
   forObservers (fun o => .obsConnected o host port)
   let (r, rs) ← recvInto Replies.empty
   if r.code == 120 then recvInto rs else pure (r, rs)
+
+/-- the part of `connect` up to the greeting -/
+def connectCore (host : Bytes) (port : Nat) : M (Reply × Replies) := do
+  connectAbandon
+  connectGreet host port
 
 /-- the part of `connect` after the greeting -/
 def connectTail (cred : Option (Bytes × Bytes)) (x : Reply × Replies) : M Replies :=
@@ -820,24 +840,47 @@ def connectCheck (cred : Option (Bytes × Bytes)) : M Unit :=
 
 theorem connect_eq (h : Bytes) (p : Nat) (cred : Option (Bytes × Bytes)) :
     connect h p cred = (do connectCheck cred; let x ← connectCore h p; connectTail cred x) := by
-  unfold connect connectCore connectTail connectCheck
+  unfold connect connectCore connectGreet connectAbandon connectTail connectCheck
   rcases cred with _ | ⟨u, pw⟩
   · simp only [bind_assoc, pure_bind]
-    congr 1; funext _; congr 1; funext _; congr 1; funext _; congr 1; funext x
-    split <;> simp
+    congr 1; funext w0
+    cases hc : w0.connected
+    · simp only [Bool.false_eq_true, if_false, pure_bind]
+      congr 1; funext _; congr 1; funext _; congr 1; funext _; congr 1; funext x
+      split <;> simp
+    · simp only [if_true, bind_assoc]
+      congr 1; funext _; congr 1; funext _
+      congr 1; funext _; congr 1; funext _; congr 1; funext _; congr 1; funext x
+      split <;> simp
   · simp only [bind_assoc, pure_bind]
-    congr 1; funext _; congr 1; funext _; congr 1; funext _; congr 1; funext _; congr 1; funext _; congr 1; funext x
-    split <;> simp
+    congr 1; funext _; congr 1; funext _; congr 1; funext w0
+    cases hc : w0.connected
+    · simp only [Bool.false_eq_true, if_false, pure_bind]
+      congr 1; funext _; congr 1; funext _; congr 1; funext _; congr 1; funext x
+      split <;> simp
+    · simp only [if_true, bind_assoc]
+      congr 1; funext _; congr 1; funext _
+      congr 1; funext _; congr 1; funext _; congr 1; funext _; congr 1; funext x
+      split <;> simp
 
 
 theorem getLast_append_reply (rs : Replies) (r : Reply) : (rs.append r).list.getLast? = some r := by
   simp
 
-theorem connectCore_spec {h : Bytes} {p : Nat} {w w' : World} {r : Reply} {rs : Replies}
-    (hc : connectCore h p w = (.ok (r, rs), w')) :
+theorem ext_abandonW (w : World) : Ext w (abandonW w) [] [] := by
+  unfold abandonW
+  split
+  · exact ⟨[.ctlClose], rfl, rfl, rfl⟩
+  · exact Ext.refl w
+
+theorem abandonW_ttype (w : World) : (abandonW w).ttype = w.ttype := by
+  unfold abandonW; split <;> rfl
+
+theorem connectGreet_spec {h : Bytes} {p : Nat} {w w' : World} {r : Reply} {rs : Replies}
+    (hc : connectGreet h p w = (.ok (r, rs), w')) :
     Ext w w' [] rs.list ∧ rs.list.getLast? = some r ∧ r.code < 1000 ∧ w'.ttype = w.ttype ∧
       ((rs.list = [r] ∧ r.code ≠ 120) ∨ ∃ r0, rs.list = [r0, r] ∧ r0.code = 120) := by
-  unfold connectCore at hc
+  unfold connectGreet at hc
   simp only [bind_ok] at hc
   obtain ⟨_, w1, h1, _, w2, h2, _, w3, h3, ⟨r1, rs1⟩, w4, h4, hc⟩ := hc
   have k1 : Keeps (Rg P0) (modifyW fun w =>
@@ -872,6 +915,15 @@ theorem connectCore_spec {h : Bytes} {p : Nat} {w w' : World} {r : Reply} {rs : 
     · simp [Replies.empty]
     · simpa using h120
 
+
+theorem connectCore_spec {h : Bytes} {p : Nat} {w w' : World} {r : Reply} {rs : Replies}
+    (hc : connectCore h p w = (.ok (r, rs), w')) :
+    Ext w w' [] rs.list ∧ rs.list.getLast? = some r ∧ r.code < 1000 ∧ w'.ttype = w.ttype ∧
+      ((rs.list = [r] ∧ r.code ≠ 120) ∨ ∃ r0, rs.list = [r0, r] ∧ r0.code = 120) := by
+  unfold connectCore at hc
+  rw [bind_apply, connectAbandon_run] at hc
+  obtain ⟨x, a, b, t, d⟩ := connectGreet_spec hc
+  exact ⟨by simpa using (ext_abandonW w).trans x, a, b, by rw [t, abandonW_ttype], d⟩
 
 def connectRef (s : Spec.Settings) (cred : Option (Bytes × Bytes)) (g : Nat) (rest : List Nat) : List Bytes :=
   match cred with
